@@ -98,6 +98,16 @@ def unflatten(
     return result
 
 
+def _contains_no_tensor(value: Any) -> bool:
+    # Entries that hold no tensor (e.g., the Kronecker factors of a block without any preconditioned
+    # dimension) are dropped by flatten() when saving, so there is nothing to load for them.
+    if isinstance(value, OptimizerModule):
+        return _contains_no_tensor(value.state_dict())
+    if isinstance(value, dict):
+        return all(_contains_no_tensor(v) for v in value.values())
+    return False
+
+
 def update_param_state_dict_object(
     current_param_state_dict: dict[str, Any],
     param_state_dict_to_load: dict[str, Any],
@@ -105,6 +115,8 @@ def update_param_state_dict_object(
 ) -> None:
     for k, v in current_param_state_dict.items():
         if k not in param_state_dict_to_load:
+            if _contains_no_tensor(v):
+                continue
             if enable_missing_key_check:
                 raise KeyError(f"Key {k} not found in state dict to load.")
             else:
